@@ -159,6 +159,10 @@ func reflectTypeArgPkgPath(pkg *types.Package) string {
 	if pkg == nil {
 		return ""
 	}
+	if pkg.Name() == "main" {
+		// the main package is "main" in type argument lists whatever its import path
+		return "main"
+	}
 	if pkg.Path() == "command-line-arguments" && pkg.Name() != "" {
 		return pkg.Name()
 	}
